@@ -30,7 +30,7 @@ MIN_EVALUATIONS = {"quick": 300, "thorough": 8000}
 
 
 def plan(tier, seed):
-    n = 25 if tier == "quick" else 400
+    n = 120 if tier == "quick" else 600
     return [dict(seed=seed, shard=i, n=n) for i in range(16)]
 
 
